@@ -120,8 +120,20 @@ def sensitivity(only=None, budget=None):
             v = re.search(r"violation: run=(\d+) oracle=(\S+) clause=(.*)", p.stdout)
             detected = p.returncode == 1 and "VIOLATION property=%s" % pid in p.stdout
             report[name] = dict(property=pid, detected=detected, exit=p.returncode, first_violation=(v.group(0)[:200] if v else None), wall_s=round(time.time() - t0, 1))
-            print("sensitivity %-34s %s: %s  %s" % (name, pid, "DETECTED" if detected else "MISSED (exit %d)" % p.returncode, (v.group(0)[:120] if v else "")))
-            if not detected:
+            rp = re.search(r"VIOLATION property=%s replay=(\S+)" % pid, p.stdout)
+            replayed = None
+            if detected and rp:
+                # the (minimised) replay file must reproduce the violation in a fresh process, twice, with the same clause
+                outs = []
+                for k in range(2):
+                    q = subprocess.run([os.path.join(VERIF, "vcheck"), "--replay", rp.group(1)], stdout=subprocess.PIPE, stderr=subprocess.STDOUT, text=True, env=dict(env, PYTHONHASHSEED=str(k * 777)), cwd=VERIF, timeout=1800)
+                    vv = re.search(r"replay: reproduced (\S+) / ([^:]*)", q.stdout)
+                    outs.append((q.returncode, vv.group(1) if vv else None, (vv.group(2)[:80] if vv else None)))
+                replayed = outs[0][0] == 1 and outs[0] == outs[1]
+                report[name]["replay"] = dict(file=os.path.basename(rp.group(1)), reproduced_twice=replayed, outcome=outs[0])
+            print("sensitivity %-34s %s: %s  %s%s" % (name, pid, "DETECTED" if detected else "MISSED (exit %d)" % p.returncode, (v.group(0)[:120] if v else ""),
+                                                  "" if replayed is None else ("  replay:OK" if replayed else "  replay:DIVERGED %s" % outs)))
+            if not detected or replayed is False:
                 ok = False
             shutil.rmtree(os.path.join(scratch, ".verif-build"), ignore_errors=True)
             # replay files written against the scratch tree are not kept
